@@ -146,7 +146,9 @@ Theorem C10_auto_at_least_min_content
 Proof. exact (auto_at_least_min_content eps tw avail tmin tmax ths cols W ws). Qed.
 Print Assumptions C10_auto_at_least_min_content.
 
-(* the oracle hypothesis min_i <= max_i is needed (and preferred.py can violate it, see the report) *)
+(* the hypothesis min_i <= max_i of the auto layout theorems is needed: without it (statements about the model with
+   an arbitrary oracle) a column can end below its min-content width and the code can divide by zero.  The source
+   now guarantees the hypothesis: C10_colspan_cells_fit_their_columns, clause min <= max *)
 Theorem C10_auto_min_content_refuted_without_oracle_hypothesis :
   exists ws, auto_layout 0 None 185 180 190 0 [mkacol true false 0 100 48; mkacol true false 0 90 132] = Some (185, ws)
              /\ nth 1 ws 0 < 132.
@@ -161,12 +163,14 @@ Print Assumptions C10_auto_zero_division_without_oracle_hypothesis.
 (* ------------------------------------------------------------------ preferred widths of the columns (preferred.py) *)
 (* h = horizontal border spacing (0 when borders collapse); columns = what column groups, columns and cells of
    span 1 contribute to each column; cells = the cells with colspan > 1 in the order the source visits them.
-   The computation never raises, and at the end every colspan cell lying inside the grid fits in the columns it
-   spans plus the h spacings between them, for min-content and for max-content:
+   The computation never raises, at the end every column has min-content <= max-content (the hypothesis of the
+   auto layout theorems: guaranteed by the source since its last step max = max(max, min)), and every colspan cell
+   lying inside the grid fits in the columns it spans plus the h spacings between them, for min- and max-content:
      s_min c <= sum(min-content widths of its columns) + (colspan - 1) * h   (same for max) *)
 Theorem C10_colspan_cells_fit_their_columns (h : Q) (columns : list (list contrib)) (cells : list scell) :
   exists st, preferred_columns h columns cells = Some st /\
     length st = length columns /\
+    Forall (fun p => p_min p <= p_max p) st /\
     forall c, In c cells -> inside c (length columns) -> fits_min h st c /\ fits_max h st c.
 Proof. exact (preferred_columns_correct h columns cells). Qed.
 Print Assumptions C10_colspan_cells_fit_their_columns.
